@@ -1,5 +1,5 @@
 module verif.local/kit
 
-go 1.19
+go 1.23
 
 require pgregory.net/rapid v1.3.0
